@@ -333,7 +333,7 @@ fn g_signextend(ch: &mut Chooser) -> B {
 
 fn run_shard(ctx: &ShardCtx, acc: &mut Acc) {
     let tier = ctx.tier;
-    drive(ctx, "layouts", tier.pick(20_000, 250_000), 900, acc, &|ch, acc| {
+    drive(ctx, "layouts", tier.pick(60_000, 300_000), 900, acc, &|ch, acc| {
         let permissive = ch.chance(1, 3);
         let (name, code, hostile): (&str, Vec<u8>, bool) = match ch.below(10) {
             6 if ch.chance(1, 2) => ("many-slots", g_many_slots(ch).code(), true),
